@@ -91,8 +91,8 @@ func probe(g *gwbox.Gateway, host, path string, cap int) (admitted int, err stri
 
 // TestPropSlotsReturnedOnEveryExitPath: the ledger at HTTP level.
 func TestPropSlotsReturnedOnEveryExitPath(t *testing.T) {
-	sub := stats.NewSub("http-exit-paths", "rapid: a max-in-flight(M in 1..3) schema on the 'pods' policy of a two-endpoint cluster behind the real chain + dispatcher; K in 0..M-1 requests are held open at the stable endpoint for the whole history (so that a slot returned twice is visible, the counter cannot go below zero); 1-8 further requests run to completion, each ending in a generated way (200; upstream 5xx; upstream resets the connection mid-body; no ready endpoint = 503 after the slot was taken; client aborts while the upstream holds the response; client aborts mid-stream; panic injected into the response writer; a panic before the proxy handler runs (watch on a resource name that is not valid UTF-8, which the watcher gauge refuses); the endpoint serving the request is removed from the cluster spec while it is in flight), up to M-K of them concurrently; oracle: afterwards exactly M-K more requests are admitted concurrently (held open at the stub) and the next one is answered 429, and after the K held requests finished exactly M; the 'other' schema of the cluster and a second cluster still admit their own limit; non-trivial = at least one abnormal ending; distinct by FNV-64 of the plan")
-	endings := []string{"ok", "upstream-5xx", "upstream-reset", "no-ready-endpoint", "client-abort-waiting", "client-abort-streaming", "writer-panic", "endpoint-removed", "endpoint-removed", "panic-before-proxying"}
+	sub := stats.NewSub("http-exit-paths", "rapid: a max-in-flight(M in 1..3) schema on the 'pods' policy of a two-endpoint cluster behind the real chain + dispatcher; K in 0..M-1 requests are held open at the stable endpoint for the whole history (so that a slot returned twice is visible, the counter cannot go below zero); 1-8 further requests run to completion, each ending in a generated way (200; upstream 5xx; upstream resets the connection mid-body; no ready endpoint = 503 after the slot was taken; client aborts while the request waits in the authenticator, so that it is dispatched with a cancelled context; client aborts while the upstream holds the response; client aborts mid-stream; panic injected into the response writer; a panic before the proxy handler runs (watch on a resource name that is not valid UTF-8, which the watcher gauge refuses); the endpoint serving the request is removed from the cluster spec while it is in flight), up to M-K of them concurrently; oracle: afterwards exactly M-K more requests are admitted concurrently (held open at the stub) and the next one is answered 429, and after the K held requests finished exactly M; the 'other' schema of the cluster and a second cluster still admit their own limit; non-trivial = at least one abnormal ending; distinct by FNV-64 of the plan")
+	endings := []string{"client-abort-authenticating", "ok", "upstream-5xx", "upstream-reset", "no-ready-endpoint", "client-abort-waiting", "client-abort-streaming", "writer-panic", "endpoint-removed", "endpoint-removed", "panic-before-proxying"}
 	stats.Check(t, stats.N(80, 600), func(t *rapid.T) {
 		m := int32(rapid.IntRange(1, 3).Draw(t, "M"))
 		n := rapid.IntRange(1, 8).Draw(t, "requests")
@@ -203,6 +203,24 @@ func TestPropSlotsReturnedOnEveryExitPath(t *testing.T) {
 						problems = append(problems, fmt.Sprintf("request without ready endpoint answered %d", r.Status))
 						mu.Unlock()
 					}
+				case "client-abort-authenticating":
+					// the client goes away while the request waits in the authenticator (a slow token review): the
+					// request reaches the dispatcher with a context that is already cancelled
+					httpPool.SetReply(id, &gwbox.Reply{Status: 200, Body: []byte("fine")})
+					parked, release := g.ParkInAuthn(id)
+					actx, abort := context.WithCancel(ctx)
+					done := make(chan struct{})
+					go func() { g.Do(actx, req); close(done) }()
+					select {
+					case <-parked:
+						time.Sleep(5 * time.Millisecond)
+					case <-done:
+					case <-time.After(10 * time.Second):
+					}
+					abort()
+					<-done
+					time.Sleep(30 * time.Millisecond) // the server notices the closed connection and cancels the request
+					release()
 				case "client-abort-waiting", "client-abort-streaming":
 					hold := make(chan struct{})
 					httpPool.SetReply(id, &gwbox.Reply{Status: 200, Hold: hold, Stream: ending == "client-abort-streaming", Every: 5 * time.Millisecond, Body: []byte("late")})
